@@ -260,6 +260,8 @@ def run(ctx):
     from rules import C08
     C08.r_output_compare(prog, rep, with_inputs=False)
     r_valid_matches_record(prog, rep)
+    from rules import engine as E
+    E.r_prior_value_guard(prog, rep, with_consumer=True)
 
     # ------------------------------------------------------------------ coverage
     r = rep.rule("R-SIG-COVERAGE", "every data member that a configure* method of a command class writes is folded by that class's getSignature "
@@ -420,4 +422,12 @@ VARIANTS = [
          new="    code = code.combine(StringRef((const char*)&input, sizeof(input)));", expect=("R-HASH-DETERMINISTIC", "ExternalCommand::getSignature")),
     dict(name="benign-combine-order", file="lib/BuildSystem/ExternalCommand.cpp",
          old="      .combine(allowMissingInputs)\n      .combine(allowModifiedOutputs)", new="      .combine(allowModifiedOutputs)\n      .combine(allowMissingInputs)", expect=None),
+    dict(name="prior-value-offered-without-signature-match", file="lib/Core/BuildEngine.cpp", old="    if (ruleInfo.result.builtAt != 0 &&\n        ruleInfo.rule->signature == ruleInfo.result.signature) {",
+         new="    if (ruleInfo.result.builtAt != 0) {", expect=("R-PRIOR-VALUE-GUARD", "demandRule|prior-value-guard")),
+    dict(name="update-if-newer-shortcut-without-prior-value", file="lib/BuildSystem/ExternalCommand.cpp", old="  if (canUpdateIfNewer && hasPriorResult) {", new="  if (canUpdateIfNewer) {",
+         expect=("R-PRIOR-VALUE-GUARD", "shortcut-needs-prior-value")),
+    dict(name="prior-result-flag-set-for-any-value", file="lib/BuildSystem/ExternalCommand.cpp", old="  if (value.isSuccessfulCommand()) {\n    hasPriorResult = true;\n  }", new="  hasPriorResult = true;",
+         expect=("R-PRIOR-VALUE-GUARD", "providePriorValue|only-successful")),
+    dict(name="benign-shortcut-guard-nested", file="lib/BuildSystem/ExternalCommand.cpp", old="  if (canUpdateIfNewer && hasPriorResult) {\n    BuildValue result = computeCommandResult(system, ti);\n    if (canUpdateIfNewerWithResult(result)) {\n      resultFn(std::move(result));\n      return;\n    }\n  }",
+         new="  if (hasPriorResult) {\n    if (canUpdateIfNewer) {\n      BuildValue result = computeCommandResult(system, ti);\n      if (canUpdateIfNewerWithResult(result)) {\n        resultFn(std::move(result));\n        return;\n      }\n    }\n  }", expect=None),
 ]
